@@ -1,0 +1,6 @@
+//go:build !verif
+// +build !verif
+
+package capacity
+
+func verifGate(point, sid string) {}
